@@ -312,3 +312,677 @@ Proof.
     unfold is_e in EE. apply orb_true_iff in EE as [EE|EE]; apply N.eqb_eq in EE; subst ch; repeat split; reflexivity. }
   intros H. inversion H; subst. left. split; reflexivity.
 Qed.
+
+(* ------------------------------------------------------------------------------------------ *)
+(* base specifiers                                                                             *)
+(* ------------------------------------------------------------------------------------------ *)
+Lemma bs_words : base_specifiers =
+  [[98]; [111]; [120]; [100]; [115; 98]; [117; 98]; [115; 111]; [117; 111]; [115; 120]; [117; 120]].
+Proof. reflexivity. Qed.
+
+Lemma is_bs_nil : is_base_specifier [] = false.
+Proof. reflexivity. Qed.
+Lemma is_bs_1 a : is_base_specifier [a] = bs1 a.
+Proof.
+  unfold is_base_specifier. rewrite bs_words. cbn [map existsb beq_bytes]. change lower with to_lower. unfold bs1.
+  rewrite !andb_false_r, !andb_true_r, !orb_false_r. rewrite <- !orb_assoc. reflexivity.
+Qed.
+Lemma is_bs_2 a b : is_base_specifier [a; b] = bs2a a && bs2b b.
+Proof.
+  unfold is_base_specifier. rewrite bs_words. cbn [map existsb beq_bytes]. change lower with to_lower. unfold bs2a, bs2b.
+  rewrite !andb_false_r, !andb_true_r, !orb_false_r. cbn [orb].
+  destruct (to_lower a =? 115), (to_lower a =? 117), (to_lower b =? 98), (to_lower b =? 111), (to_lower b =? 120);
+    reflexivity.
+Qed.
+Lemma is_bs_3 a b c r : is_base_specifier (a :: b :: c :: r) = false.
+Proof.
+  unfold is_base_specifier. rewrite bs_words. cbn [map existsb beq_bytes].
+  rewrite !andb_false_r. reflexivity.
+Qed.
+
+Lemma tl_letter c : lower_letter (to_lower c) = true -> letter c = true.
+Proof.
+  unfold to_lower, letter. destruct (upper_letter c) eqn:U; [rewrite orb_true_r; reflexivity|].
+  intros H. rewrite H. reflexivity.
+Qed.
+Lemma bs1_letter a : bs1 a = true -> letter a = true.
+Proof.
+  unfold bs1. intros H. apply tl_letter.
+  repeat (apply orb_true_iff in H as [H|H]); apply N.eqb_eq in H; rewrite H; reflexivity.
+Qed.
+Lemma bs2a_letter a : bs2a a = true -> letter a = true.
+Proof.
+  unfold bs2a. intros H. apply tl_letter.
+  repeat (apply orb_true_iff in H as [H|H]); apply N.eqb_eq in H; rewrite H; reflexivity.
+Qed.
+Lemma bs2b_letter a : bs2b a = true -> letter a = true.
+Proof.
+  unfold bs2b. intros H. apply tl_letter.
+  repeat (apply orb_true_iff in H as [H|H]); apply N.eqb_eq in H; rewrite H; reflexivity.
+Qed.
+Lemma letter_ident c : letter c = true -> ident_char c = true.
+Proof. unfold ident_char. intros H. rewrite H. reflexivity. Qed.
+
+Lemma is_bs_head x t : is_base_specifier (x :: t) = true -> letter x = true.
+Proof.
+  destruct t as [|b [|c r]].
+  - rewrite is_bs_1. apply bs1_letter.
+  - rewrite is_bs_2. intros H. apply andb_true_iff in H as [H _]. apply bs2a_letter. exact H.
+  - rewrite is_bs_3. discriminate.
+Qed.
+
+(* a base specifier directly followed by a quotation mark, seen from the identifier scan *)
+Lemma bs_len_of_ident t r' : is_base_specifier t = true -> base_spec_len (t ++ 34 :: r') = Some (length t).
+Proof.
+  destruct t as [|a [|b [|c r]]].
+  - discriminate.
+  - rewrite is_bs_1. intros H. cbn [app base_spec_len length]. rewrite H. reflexivity.
+  - rewrite is_bs_2. intros H. apply andb_true_iff in H as [H1 H2]. cbn [app base_spec_len length].
+    rewrite H1, H2.
+    assert (N34 : (b =? 34) = false).
+    { apply bs2b_letter in H2. destruct (b =? 34) eqn:E; [|reflexivity]. apply N.eqb_eq in E. subst b. discriminate. }
+    rewrite N34, andb_false_r. cbn [andb]. rewrite N.eqb_refl. reflexivity.
+  - rewrite is_bs_3. discriminate.
+Qed.
+Lemma ident_of_bs_len s n : base_spec_len s = Some n ->
+  exists t r', s = t ++ 34 :: r' /\ length t = n /\ is_base_specifier t = true /\ span ident_char s = (t, 34 :: r').
+Proof.
+  destruct s as [|a [|b r]]; try discriminate. cbn [base_spec_len].
+  destruct (bs1 a && (b =? 34)) eqn:E1.
+  - intros H. inversion H; subst. apply andb_true_iff in E1 as [E1 E2]. apply N.eqb_eq in E2; subst b.
+    exists [a], r. split; [reflexivity|]. split; [reflexivity|]. split; [rewrite is_bs_1; exact E1|].
+    cbn [span]. rewrite (letter_ident _ (bs1_letter _ E1)). replace (ident_char 34) with false by reflexivity. reflexivity.
+  - destruct (bs2a a && bs2b b && match r with c :: _ => c =? 34 | [] => false end) eqn:E2; [|discriminate].
+    intros H. inversion H; subst. apply andb_true_iff in E2 as [E2 E3]. apply andb_true_iff in E2 as [E2a E2b].
+    destruct r as [|c r]; [discriminate|]. apply N.eqb_eq in E3; subst c.
+    exists [a; b], r. split; [reflexivity|]. split; [reflexivity|].
+    split; [rewrite is_bs_2, E2a, E2b; reflexivity|].
+    cbn [span]. rewrite (letter_ident _ (bs2a_letter _ E2a)), (letter_ident _ (bs2b_letter _ E2b)).
+    replace (ident_char 34) with false by reflexivity. reflexivity.
+Qed.
+
+(* ------------------------------------------------------------------------------------------ *)
+(* reserved words                                                                              *)
+(* ------------------------------------------------------------------------------------------ *)
+Lemma beq_list_eqb a b : beq_bytes a b = list_eqb a b.
+Proof. revert b. induction a as [|x a IH]; intros [|y b]; try reflexivity. Qed.
+Lemma list_eqb_refl a : list_eqb a a = true.
+Proof. induction a as [|x a IH]; [reflexivity|]. cbn [list_eqb]. rewrite N.eqb_refl, IH. reflexivity. Qed.
+Lemma existsb_eqb_in l L : existsb (list_eqb l) L = true <-> In l L.
+Proof.
+  rewrite existsb_exists. split.
+  - intros (x & Hx & E). apply list_eqb_eq in E. subst x. exact Hx.
+  - intros H. exists l. split; [exact H|apply list_eqb_refl].
+Qed.
+Definition incl_b (A B : list (list N)) : bool := forallb (fun w => existsb (list_eqb w) B) A.
+Lemma incl_b_sound A B : incl_b A B = true -> forall l, In l A -> In l B.
+Proof.
+  unfold incl_b. intros H l Hl. rewrite forallb_forall in H. apply existsb_eqb_in. apply H. exact Hl.
+Qed.
+Lemma existsb_ext' {A} (f g : A -> bool) l : (forall x, f x = g x) -> existsb f l = existsb g l.
+Proof. intros E. induction l as [|x l IH]; [reflexivity|]. cbn [existsb]. rewrite E, IH. reflexivity. Qed.
+Lemma kw_incl_1 : incl_b kw2008 LangLexer.keywords_2008 = true.
+Proof. vm_compute. reflexivity. Qed.
+Lemma kw_incl_2 : incl_b LangLexer.keywords_2008 (ASSUME_G :: RESTRICT_G :: kw2008) = true.
+Proof. vm_compute. reflexivity. Qed.
+Lemma kw_agree l : l <> ASSUME_G -> l <> RESTRICT_G ->
+  existsb (beq_bytes l) kw2008 = existsb (list_eqb l) LangLexer.keywords_2008.
+Proof.
+  intros N1 N2. rewrite (existsb_ext' _ (list_eqb l)) by (intros; apply beq_list_eqb).
+  destruct (existsb (list_eqb l) kw2008) eqn:E1; destruct (existsb (list_eqb l) LangLexer.keywords_2008) eqn:E2;
+    try reflexivity; exfalso.
+  - apply existsb_eqb_in in E1. apply (incl_b_sound _ _ kw_incl_1) in E1. apply existsb_eqb_in in E1. congruence.
+  - apply existsb_eqb_in in E2. apply (incl_b_sound _ _ kw_incl_2) in E2.
+    destruct E2 as [E2|[E2|E2]]; [congruence|congruence|]. apply existsb_eqb_in in E2. congruence.
+Qed.
+Lemma all_is_kw : existsb (beq_bytes kw_all) kw2008 = true.
+Proof. vm_compute. reflexivity. Qed.
+Lemma bs_not_kw : forallb (fun w => negb (existsb (beq_bytes w) kw2008)) base_specifiers = true.
+Proof. vm_compute. reflexivity. Qed.
+Lemma bs_ident_kind t : is_base_specifier t = true -> ident_kind kw2008 t = KIdentifier.
+Proof.
+  unfold is_base_specifier, ident_kind. intros H. apply existsb_exists in H as (w & Hw & E).
+  rewrite beq_list_eqb in E. apply list_eqb_eq in E. rewrite E.
+  pose proof bs_not_kw as B. rewrite forallb_forall in B. specialize (B w Hw).
+  destruct (existsb (beq_bytes w) kw2008); [discriminate|reflexivity].
+Qed.
+
+Lemma is_prefix_app p x : is_prefix p (p ++ x) = true.
+Proof. induction p as [|a p IH]; [reflexivity|]. cbn [app is_prefix]. rewrite N.eqb_refl, IH. reflexivity. Qed.
+Lemma contains_prefix p x : contains p (p ++ x) = true.
+Proof. destruct (p ++ x) eqn:E; cbn [contains]; rewrite <- E, is_prefix_app; reflexivity. Qed.
+Lemma contains_suffix p a b : contains p (a ++ b) = false -> contains p b = false.
+Proof.
+  induction a as [|x a IH]; [trivial|]. cbn [app contains]. intros H. apply orb_false_iff in H as [_ H]. apply IH. exact H.
+Qed.
+Lemma psl_suffix a b : has_psl_word (a ++ b) = false -> has_psl_word b = false.
+Proof.
+  unfold has_psl_word. rewrite map_app. intros H. apply orb_false_iff in H as [H1 H2].
+  rewrite (contains_suffix _ _ _ H1), (contains_suffix _ _ _ H2). reflexivity.
+Qed.
+Lemma psl_head t r : has_psl_word (t ++ r) = false ->
+  map to_lower t <> ASSUME_G /\ map to_lower t <> RESTRICT_G.
+Proof.
+  unfold has_psl_word. rewrite map_app. intros H. apply orb_false_iff in H as [H1 H2].
+  split; intros E; rewrite E in *; rewrite contains_prefix in *; discriminate.
+Qed.
+
+(* the tick rule: the keyword classes of the two tables coincide away from the two PSL words *)
+Lemma ident_after_agree t : map to_lower t <> ASSUME_G -> map to_lower t <> RESTRICT_G ->
+  can_be_char (Some (ident_kind kw2008 t)) = can_char (ident_after LangLexer.keywords_2008 t).
+Proof.
+  intros N1 N2. unfold ident_kind, ident_after. cbv zeta.
+  change (map lower t) with (map to_lower t). set (l := map to_lower t) in *.
+  rewrite (kw_agree l N1 N2). change KW_ALL with kw_all.
+  destruct (list_eqb l kw_all) eqn:EA.
+  - apply list_eqb_eq in EA. rewrite EA. rewrite <- (kw_agree kw_all) by discriminate. rewrite all_is_kw.
+    cbn [can_be_char can_char]. rewrite beq_list_eqb, list_eqb_refl. reflexivity.
+  - destruct (existsb (list_eqb l) LangLexer.keywords_2008).
+    + cbn [can_be_char can_char]. rewrite beq_list_eqb, EA. reflexivity.
+    + reflexivity.
+Qed.
+
+(* ------------------------------------------------------------------------------------------ *)
+(* one token that starts with neither a letter nor a digit                                     *)
+(* ------------------------------------------------------------------------------------------ *)
+(* the reference step on a known leading character (closed tests evaluate by conversion) *)
+Lemma step_59 kws prev r : lexeme_step kws prev (59 :: r) = delim 1 (59 :: r). Proof. reflexivity. Qed.
+Lemma step_40 kws prev r : lexeme_step kws prev (40 :: r) = delim 1 (40 :: r). Proof. reflexivity. Qed.
+Lemma step_43 kws prev r : lexeme_step kws prev (43 :: r) = delim 1 (43 :: r). Proof. reflexivity. Qed.
+Lemma step_45 kws prev r : lexeme_step kws prev (45 :: r) = delim 1 (45 :: r). Proof. reflexivity. Qed.
+Lemma step_46 kws prev r : lexeme_step kws prev (46 :: r) = delim 1 (46 :: r). Proof. reflexivity. Qed.
+Lemma step_38 kws prev r : lexeme_step kws prev (38 :: r) = delim 1 (38 :: r). Proof. reflexivity. Qed.
+Lemma step_44 kws prev r : lexeme_step kws prev (44 :: r) = delim 1 (44 :: r). Proof. reflexivity. Qed.
+Lemma step_94 kws prev r : lexeme_step kws prev (94 :: r) = delim 1 (94 :: r). Proof. reflexivity. Qed.
+Lemma step_64 kws prev r : lexeme_step kws prev (64 :: r) = delim 1 (64 :: r). Proof. reflexivity. Qed.
+Lemma step_124 kws prev r : lexeme_step kws prev (124 :: r) = delim 1 (124 :: r). Proof. reflexivity. Qed.
+Lemma step_91 kws prev r : lexeme_step kws prev (91 :: r) = delim 1 (91 :: r). Proof. reflexivity. Qed.
+Lemma step_41 kws prev r : lexeme_step kws prev (41 :: r) = Some ([41], r, AfterName). Proof. reflexivity. Qed.
+Lemma step_93 kws prev r : lexeme_step kws prev (93 :: r) = Some ([93], r, AfterName). Proof. reflexivity. Qed.
+Lemma step_58 kws prev r : lexeme_step kws prev (58 :: r) = if hd_eq r 61 then delim 2 (58 :: r) else delim 1 (58 :: r). Proof. reflexivity. Qed.
+Lemma step_61 kws prev r : lexeme_step kws prev (61 :: r) = if hd_eq r 62 then delim 2 (61 :: r) else delim 1 (61 :: r). Proof. reflexivity. Qed.
+Lemma step_60 kws prev r : lexeme_step kws prev (60 :: r) = if hd_eq r 61 || hd_eq r 62 || hd_eq r 60 then delim 2 (60 :: r) else delim 1 (60 :: r). Proof. reflexivity. Qed.
+Lemma step_62 kws prev r : lexeme_step kws prev (62 :: r) = if hd_eq r 61 || hd_eq r 62 then delim 2 (62 :: r) else delim 1 (62 :: r). Proof. reflexivity. Qed.
+Lemma step_47 kws prev r : lexeme_step kws prev (47 :: r) = if hd_eq r 61 then delim 2 (47 :: r) else delim 1 (47 :: r). Proof. reflexivity. Qed.
+Lemma step_42 kws prev r : lexeme_step kws prev (42 :: r) = if hd_eq r 42 then delim 2 (42 :: r) else delim 1 (42 :: r). Proof. reflexivity. Qed.
+Lemma step_63 kws prev r : lexeme_step kws prev (63 :: r) =
+  if hd_eq r 63 || hd_eq r 61 then delim 2 (63 :: r)
+  else if hd_eq r 47 then (if snd_eq r 61 then delim 3 (63 :: r) else delim 1 (63 :: r))
+  else if hd_eq r 60 || hd_eq r 62 then (if snd_eq r 61 then delim 3 (63 :: r) else delim 2 (63 :: r))
+  else delim 1 (63 :: r).
+Proof. reflexivity. Qed.
+Lemma step_39 kws prev r : lexeme_step kws prev (39 :: r) =
+  if can_char prev && snd_eq r 39 then delim 3 (39 :: r) else delim 1 (39 :: r).
+Proof. reflexivity. Qed.
+Lemma step_34 kws prev r : lexeme_step kws prev (34 :: r) =
+  match quoted_rest 34 r with Some (b, r') => Some (34 :: b, r', AfterOther) | None => None end.
+Proof. reflexivity. Qed.
+Lemma step_92 kws prev r : lexeme_step kws prev (92 :: r) =
+  match quoted_rest 92 r with Some (b, r') => Some (92 :: b, r', AfterName) | None => None end.
+Proof. reflexivity. Qed.
+
+Definition inert (k : kind) (t : list byte) : Prop :=
+  is_abs k = false /\ (is_ident k = true -> is_base_specifier t = false).
+
+Ltac fin_one H :=
+  unfold one in H; inversion H; subst; clear H;
+  eexists; split; [unfold delim; reflexivity|];
+  split; [reflexivity|]; split; [reflexivity|intros X; discriminate X].
+
+Lemma token_other last prev c r k t r' :
+  letter c = false -> digit c = false -> (c =? 96) = false ->
+  token kw2008 last (c :: r) = (k, t, r', None) ->
+  can_be_char last = can_char prev ->
+  exists a, lexeme_step LangLexer.keywords_2008 prev (c :: r) = Some (t, r', a)
+            /\ can_be_char (Some k) = can_char a /\ inert k t.
+Proof.
+  intros L D G H INV. unfold token in H. rewrite alpha_eq, L, digit_eq, D, INV in H.
+  change hd_is with hd_eq in H. change is2 with snd_eq in H.
+  destruct (c =? 58) eqn:E58.
+  { apply N.eqb_eq in E58; subst c. rewrite step_58. destruct (hd_eq r 61); fin_one H. }
+  destruct (c =? 39) eqn:E39.
+  { apply N.eqb_eq in E39; subst c. rewrite step_39. destruct (can_char prev && snd_eq r 39); fin_one H. }
+  destruct (c =? 45) eqn:E45.
+  { apply N.eqb_eq in E45; subst c. rewrite step_45. fin_one H. }
+  destruct (c =? 34) eqn:E34.
+  { apply N.eqb_eq in E34; subst c. rewrite step_34.
+    destruct (quoted (34 :: r)) as [[t0 r0] tm] eqn:Q. destruct tm; inversion H; subst; clear H.
+    apply quoted_rest_of in Q as (body & E & Q). subst t. rewrite Q.
+    eexists; split; [reflexivity|]. split; [reflexivity|]. split; [reflexivity|intros X; discriminate X]. }
+  destruct (c =? 59) eqn:E59.
+  { apply N.eqb_eq in E59; subst c. rewrite step_59. fin_one H. }
+  destruct (c =? 40) eqn:E40.
+  { apply N.eqb_eq in E40; subst c. rewrite step_40. fin_one H. }
+  destruct (c =? 41) eqn:E41.
+  { apply N.eqb_eq in E41; subst c. rewrite step_41. unfold one in H; inversion H; subst; clear H.
+    eexists; split; [reflexivity|]. split; [reflexivity|]. split; [reflexivity|intros X; discriminate X]. }
+  destruct (c =? 43) eqn:E43.
+  { apply N.eqb_eq in E43; subst c. rewrite step_43. fin_one H. }
+  destruct (c =? 46) eqn:E46.
+  { apply N.eqb_eq in E46; subst c. rewrite step_46. fin_one H. }
+  destruct (c =? 38) eqn:E38.
+  { apply N.eqb_eq in E38; subst c. rewrite step_38. fin_one H. }
+  destruct (c =? 44) eqn:E44.
+  { apply N.eqb_eq in E44; subst c. rewrite step_44. fin_one H. }
+  destruct (c =? 61) eqn:E61.
+  { apply N.eqb_eq in E61; subst c. rewrite step_61. destruct (hd_eq r 62); fin_one H. }
+  destruct (c =? 60) eqn:E60.
+  { apply N.eqb_eq in E60; subst c. rewrite step_60.
+    destruct (hd_eq r 61); [cbn [orb]; fin_one H|]. destruct (hd_eq r 62); [cbn [orb]; fin_one H|].
+    destruct (hd_eq r 60); cbn [orb]; fin_one H. }
+  destruct (c =? 62) eqn:E62.
+  { apply N.eqb_eq in E62; subst c. rewrite step_62.
+    destruct (hd_eq r 61); [cbn [orb]; fin_one H|]. destruct (hd_eq r 62); cbn [orb]; fin_one H. }
+  destruct (c =? 47) eqn:E47.
+  { apply N.eqb_eq in E47; subst c. rewrite step_47. destruct (hd_eq r 61); fin_one H. }
+  destruct (c =? 42) eqn:E42.
+  { apply N.eqb_eq in E42; subst c. rewrite step_42. destruct (hd_eq r 42); fin_one H. }
+  destruct (c =? 63) eqn:E63.
+  { apply N.eqb_eq in E63; subst c. rewrite step_63.
+    destruct (hd_eq r 63); [cbn [orb]; fin_one H|]. destruct (hd_eq r 61); [cbn [orb]; fin_one H|]. cbn [orb].
+    destruct (hd_eq r 47); [destruct (snd_eq r 61); fin_one H|].
+    destruct (hd_eq r 60); [cbn [orb]; destruct (snd_eq r 61); fin_one H|].
+    destruct (hd_eq r 62); cbn [orb]; [destruct (snd_eq r 61); fin_one H|fin_one H]. }
+  destruct (c =? 94) eqn:E94.
+  { apply N.eqb_eq in E94; subst c. rewrite step_94. fin_one H. }
+  destruct (c =? 64) eqn:E64.
+  { apply N.eqb_eq in E64; subst c. rewrite step_64. fin_one H. }
+  destruct (c =? 124) eqn:E124.
+  { apply N.eqb_eq in E124; subst c. rewrite step_124. fin_one H. }
+  destruct (c =? 91) eqn:E91.
+  { apply N.eqb_eq in E91; subst c. rewrite step_91. fin_one H. }
+  destruct (c =? 93) eqn:E93.
+  { apply N.eqb_eq in E93; subst c. rewrite step_93. unfold one in H; inversion H; subst; clear H.
+    eexists; split; [reflexivity|]. split; [reflexivity|]. split; [reflexivity|intros X; discriminate X]. }
+  destruct (c =? 92) eqn:E92.
+  { apply N.eqb_eq in E92; subst c. rewrite step_92.
+    destruct (quoted (92 :: r)) as [[t0 r0] tm] eqn:Q. destruct tm; inversion H; subst; clear H.
+    apply quoted_rest_of in Q as (body & E & Q). subst t. rewrite Q.
+    eexists; split; [reflexivity|]. split; [reflexivity|]. split; [reflexivity|].
+    intros _. destruct (is_base_specifier (92 :: body)) eqn:B; [|reflexivity].
+    apply is_bs_head in B. discriminate B. }
+  rewrite G in H. inversion H.
+Qed.
+
+(* ------------------------------------------------------------------------------------------ *)
+(* the head of a token list produced by the loop                                               *)
+(* ------------------------------------------------------------------------------------------ *)
+Lemma trivia_bytes_nil_inv r s : trivia_bytes [] ++ r = s -> r = s.
+Proof. cbn. trivial. Qed.
+
+Lemma lex_first kws f last s tok d rest :
+  lex kws f last s = LexOk ((tok, d) :: rest) -> t_trivia tok = [] ->
+  (s = [] /\ t_kind tok = KEof) \/
+  (exists c r k t r' e f0, s = c :: r /\ f = S f0 /\ token kws last (c :: r) = (k, t, r', e)
+     /\ tok = mkTok k t [] /\ lex kws f0 (Some k) r' = LexOk rest).
+Proof.
+  destruct f as [|f0]; [discriminate|]. rewrite lex_S.
+  destruct (trivia (S (length s)) s) as [[[tr r] un]|] eqn:T; [|discriminate].
+  apply trivia_ok in T as (Tb & _ & _).
+  destruct r as [|c r0].
+  - intros H NT. injection H as Htok _ _. rewrite <- Htok in NT. cbn [t_trivia] in NT. rewrite NT in Tb.
+    left. split; [|rewrite <- Htok; reflexivity]. cbn in Tb. symmetry. exact Tb.
+  - destruct (token kws last (c :: r0)) as [[[k t] r'] e] eqn:Tk.
+    destruct (combine_diag tr un e) as [d0|]; [|discriminate].
+    destruct (lex kws f0 (Some k) r') as [ts| |] eqn:Lx; try discriminate.
+    intros H NT. injection H as Htok _ Hrest. rewrite <- Htok in NT. cbn [t_trivia] in NT. rewrite NT in Tb.
+    cbn in Tb. right. exists c, r0, k, t, r', e, f0.
+    split; [symmetry; exact Tb|]. split; [reflexivity|]. split; [exact Tk|].
+    split; [rewrite <- Htok, NT; reflexivity|]. rewrite <- Hrest. exact Lx.
+Qed.
+
+Lemma trivia_piece_nonsep c r : separator c = false -> (c =? 45) = false -> (c =? 47) = false ->
+  trivia_piece (c :: r) = None.
+Proof.
+  intros S N45 N47. unfold trivia_piece. unfold separator, in_rng in S.
+  apply orb_false_iff in S as [S S3]. apply orb_false_iff in S as [S1 S2].
+  assert (R : forall k, 9 <= k -> k <= 13 -> (c =? k) = false).
+  { intros k K1 K2. destruct (c =? k) eqn:E; [|reflexivity]. apply N.eqb_eq in E. subst k.
+    apply N.leb_le in K1, K2. rewrite K1, K2 in S3. discriminate. }
+  rewrite (R 9), (R 11), (R 13), (R 12), (R 10) by lia. rewrite S1, N45, N47, S2. reflexivity.
+Qed.
+Lemma trivia_none c r n : trivia_piece (c :: r) = None -> trivia (S n) (c :: r) = Some ([], c :: r, false).
+Proof. intros H. cbn [trivia]. rewrite H. reflexivity. Qed.
+Lemma letter_nonsep c : letter c = true -> separator c = false /\ (c =? 45) = false /\ (c =? 47) = false.
+Proof.
+  unfold letter, lower_letter, upper_letter, separator. unfold in_rng. intros H.
+  assert (65 <= c) as L.
+  { apply orb_true_iff in H as [H|H]; apply andb_true_iff in H as [H1 H2]; apply N.leb_le in H1, H2; lia. }
+  assert (c <= 122) as U.
+  { apply orb_true_iff in H as [H|H]; apply andb_true_iff in H as [H1 H2]; apply N.leb_le in H1, H2; lia. }
+  repeat split.
+  - destruct (c =? 32) eqn:A; [apply N.eqb_eq in A; lia|]. destruct (c =? 160) eqn:B; [apply N.eqb_eq in B; lia|].
+    cbn [orb]. destruct (c <=? 13) eqn:C; [apply N.leb_le in C; lia|]. rewrite andb_false_r. reflexivity.
+  - destruct (c =? 45) eqn:A; [apply N.eqb_eq in A; lia|reflexivity].
+  - destruct (c =? 47) eqn:A; [apply N.eqb_eq in A; lia|reflexivity].
+Qed.
+
+Lemma token_letter kws last c r : letter c = true ->
+  token kws last (c :: r) =
+  (ident_kind kws (fst (span ident_char (c :: r))), fst (span ident_char (c :: r)), snd (span ident_char (c :: r)), None).
+Proof.
+  intros L. unfold token. rewrite alpha_eq, L. rewrite tw_span.
+  rewrite (span_ext is_identc ident_char _ identc_eq). destruct (span ident_char (c :: r)); reflexivity.
+Qed.
+Lemma token_quote kws last r :
+  token kws last (34 :: r) =
+  (let '(t, r', term) := quoted (34 :: r) in (KStringLiteral, t, r', if term then None else Some EUntermString)).
+Proof. reflexivity. Qed.
+
+(* a string token starts with a quotation mark *)
+Lemma token_kind_string kws last c r k t r' e :
+  token kws last (c :: r) = (k, t, r', e) -> is_str k = true -> c = 34.
+Proof.
+  unfold token, one.
+  repeat match goal with
+         | |- context [if ?b then _ else _] => destruct b eqn:?
+         | |- context [let '(_, _) := ?x in _] => destruct x
+         end;
+  intros H S; inversion H; subst; try discriminate S;
+  try (unfold ident_kind in S; match type of S with context [if ?b then _ else _] => destruct b end; discriminate S).
+  all: match goal with E : (?x =? 34) = true |- ?x = 34 => apply N.eqb_eq in E; exact E end.
+Qed.
+
+(* ------------------------------------------------------------------------------------------ *)
+(* cleanliness and merging                                                                     *)
+(* ------------------------------------------------------------------------------------------ *)
+Lemma or_err_none a b : or_err a b = None -> a = None /\ b = None.
+Proof. destruct a; [discriminate|]. intros H. split; [reflexivity|exact H]. Qed.
+
+Lemma merge_clean : forall n ts, (length ts <= n)%nat -> syn_clean_of (merge ts) = true -> syn_clean_of ts = true.
+Proof.
+  induction n as [|n IH]; intros ts L H.
+  - destruct ts; [reflexivity|cbn [length] in L; lia].
+  - destruct ts as [|[t d] rest]; [reflexivity|]. rewrite merge_cons in H. cbn [length] in L.
+    assert (KEEP : syn_clean_of ((t, d) :: merge rest) = true -> syn_clean_of ((t, d) :: rest) = true).
+    { unfold syn_clean_of. cbn [forallb snd]. intros K. apply andb_true_iff in K as [K1 K2].
+      rewrite K1. apply (IH rest); [lia|exact K2]. }
+    destruct (is_ident (t_kind t) && is_base_specifier (t_text t)).
+    + destruct rest as [|[s ds] rest']; [exact (KEEP H)|].
+      destruct (is_str (t_kind s) && no_trivia s); [|exact (KEEP H)].
+      unfold syn_clean_of in *. cbn [forallb snd] in *. apply andb_true_iff in H as [H1 H2].
+      destruct (or_err d ds) eqn:O; [discriminate|]. apply or_err_none in O as [-> ->].
+      cbn [andb]. apply (IH rest'); [cbn [length] in L; lia|exact H2].
+    + destruct (is_abs (t_kind t)); [|exact (KEEP H)].
+      destruct rest as [|[i di] [|[s ds] rest']]; try exact (KEEP H).
+      destruct (is_ident (t_kind i) && no_trivia i && is_base_specifier (t_text i) && is_str (t_kind s) && no_trivia s);
+        [|exact (KEEP H)].
+      unfold syn_clean_of in *. cbn [forallb snd] in *. apply andb_true_iff in H as [H1 H2].
+      destruct (or_err (or_err d di) ds) eqn:O; [discriminate|]. apply or_err_none in O as [O ->].
+      apply or_err_none in O as [-> ->]. cbn [andb]. apply (IH rest'); [cbn [length] in L; lia|exact H2].
+Qed.
+
+Lemma norm_eol_id t : no_cr t = true -> norm_eol t = t.
+Proof.
+  induction t as [|c r IH]; [reflexivity|]. intros H. apply no_cr_cons in H as [H1 H2].
+  cbn [norm_eol]. rewrite H1, (IH H2). reflexivity.
+Qed.
+Lemma no_cr_app a b : no_cr (a ++ b) = true -> no_cr a = true /\ no_cr b = true.
+Proof. unfold no_cr. rewrite forallb_app. apply andb_true_iff. Qed.
+Lemma no_dir_app a b : no_directive (a ++ b) = true -> no_directive a = true /\ no_directive b = true.
+Proof. unfold no_directive. rewrite forallb_app. apply andb_true_iff. Qed.
+Lemma no_dir_head c r : no_directive (c :: r) = true -> (c =? 96) = false.
+Proof. unfold no_directive. cbn [forallb]. intros H. apply andb_true_iff in H as [H _]. destruct (c =? 96); [discriminate|reflexivity]. Qed.
+
+Definition bad_bs (x : ltok) : bool :=
+  match t_kind (fst x) with KBitStringLiteral => nonint_prefix (t_text (fst x)) | _ => false end.
+
+Lemma lexemes_cons k t tr d rest : is_eof k = false ->
+  syn_lexemes_of ((mkTok k t tr, d) :: rest) = norm_eol t :: syn_lexemes_of rest.
+Proof. intros E. unfold syn_lexemes_of. cbn [filter fst t_kind]. rewrite E. reflexivity. Qed.
+
+(* ------------------------------------------------------------------------------------------ *)
+(* the token loop + merge realise split_from                                                   *)
+(* ------------------------------------------------------------------------------------------ *)
+Lemma firstn_S_app {A} (t : list A) x r : firstn (S (length t)) (t ++ x :: r) = t ++ [x].
+Proof. induction t as [|a t IH]; [reflexivity|]. cbn [length app firstn]. cbn [length app firstn] in IH. rewrite IH. reflexivity. Qed.
+Lemma skipn_S_app {A} (t : list A) x r : skipn (S (length t)) (t ++ x :: r) = r.
+Proof. induction t as [|a t IH]; [reflexivity|]. cbn [length app skipn]. cbn [length app skipn] in IH. exact IH. Qed.
+
+Lemma sep34 : separator 34 = false /\ (34 =? 45) = false /\ (34 =? 47) = false.
+Proof. repeat split. Qed.
+Lemma trivia_34 r n : trivia (S n) (34 :: r) = Some ([], 34 :: r, false).
+Proof. apply trivia_none. apply trivia_piece_nonsep; reflexivity. Qed.
+Lemma trivia_letter c r n : letter c = true -> trivia (S n) (c :: r) = Some ([], c :: r, false).
+Proof. intros L. apply trivia_none. destruct (letter_nonsep c L) as (A & B & C). apply trivia_piece_nonsep; assumption. Qed.
+
+(* the string token that follows a base specifier *)
+Lemma lex_string f last r ts : lex kw2008 f last (34 :: r) = LexOk ts -> syn_clean_of ts = true ->
+  exists f1 body r2 ts2, f = S f1 /\ quoted_rest 34 r = Some (body, r2) /\
+    ts = (mkTok KStringLiteral (34 :: body) [], None) :: ts2 /\
+    lex kw2008 f1 (Some KStringLiteral) r2 = LexOk ts2 /\ (length r2 <= length r)%nat.
+Proof.
+  destruct f as [|f1]; [discriminate|]. rewrite lex_S, trivia_34, token_quote.
+  destruct (quoted (34 :: r)) as [[tq rq] tm] eqn:Q. destruct tm.
+  - cbn [combine_diag]. destruct (lex kw2008 f1 (Some KStringLiteral) rq) as [ts2| |] eqn:L2; try discriminate.
+    intros H _. inversion H; subst. pose proof (quoted_ok _ _ _ _ _ Q) as [QB _].
+    apply quoted_rest_of in Q as (body & E & QR). subst tq.
+    exists f1, body, rq, ts2. repeat split; try reflexivity; try assumption.
+    cbn [app] in QB. injection QB as QB'. apply (f_equal (@length _)) in QB'. rewrite app_length in QB'. unfold byte in *. lia.
+  - cbn [combine_diag]. destruct (lex kw2008 f1 (Some KStringLiteral) rq) as [ts2| |]; try discriminate.
+    intros H C. inversion H; subst. discriminate C.
+Qed.
+
+Lemma quoted_rest_app q : forall n s, (length s <= n)%nat -> forall a b, quoted_rest q s = Some (a, b) -> a ++ b = s.
+Proof.
+  induction n as [|n IH]; intros s L a b H.
+  - destruct s; [discriminate H|cbn [length] in L; lia].
+  - destruct s as [|x r]; [discriminate H|]. cbn [quoted_rest] in H. cbn [length] in L. destruct (x =? q).
+    + destruct r as [|y r2]; [inversion H; reflexivity|]. destruct (y =? q).
+      * destruct (quoted_rest q r2) as [[a0 b0]|] eqn:Q; [|discriminate H]. inversion H; subst.
+        cbn [app]. do 2 f_equal. apply (IH r2); [cbn [length] in L; lia|exact Q].
+      * inversion H; subst. reflexivity.
+    + destruct (quoted_rest q r) as [[a0 b0]|] eqn:Q; [|discriminate H]. inversion H; subst.
+      cbn [app]. f_equal. apply (IH r); [lia|exact Q].
+Qed.
+
+Lemma keep_tail x l : existsb bad_bs (x :: l) = false -> existsb bad_bs l = false.
+Proof. cbn [existsb]. intros H. apply orb_false_iff in H as [_ H]. exact H. Qed.
+
+Lemma base_spec_len_none_head x r : bs1 x = false -> bs2a x = false -> base_spec_len (x :: r) = None.
+Proof. intros A B. destruct r as [|y r]; [reflexivity|]. cbn [base_spec_len]. rewrite A, B. reflexivity. Qed.
+
+Lemma clean_cons tok d ts : syn_clean_of ((tok, d) :: ts) = true -> d = None /\ syn_clean_of ts = true.
+Proof.
+  unfold syn_clean_of. cbn [forallb snd]. intros H. apply andb_true_iff in H as [H1 H2].
+  split; [destruct d; [discriminate|reflexivity]|exact H2].
+Qed.
+
+Lemma main_step : forall n f last prev s ts, (f <= n)%nat ->
+  lex kw2008 f last s = LexOk ts ->
+  syn_clean_of ts = true ->
+  existsb bad_bs (merge ts) = false ->
+  no_directive s = true -> no_cr s = true -> has_psl_word s = false ->
+  can_be_char last = can_char prev ->
+  forall f', (length s < f')%nat ->
+  split_from LangLexer.keywords_2008 f' prev s = Some (syn_lexemes_of (merge ts)).
+Proof.
+  induction n as [|n IH]; intros f last prev s ts Lf LX CL NB ND NC NP INV f' Lf'.
+  { destruct f; [discriminate LX|lia]. }
+  destruct f as [|f0]; [discriminate LX|].
+  rewrite lex_S in LX.
+  destruct (trivia (S (length s)) s) as [[[tr r] un]|] eqn:T; [|discriminate LX].
+  pose proof (trivia_ok _ _ _ _ _ T) as (Tb & Tl & Tu).
+  destruct f' as [|f'']; [lia|]. cbn [split_from].
+  destruct un.
+  { destruct (Tu eq_refl) as [-> _]. inversion LX; subst. discriminate CL. }
+  pose proof (gap_trivia _ _ _ _ T (S (length s)) (Nat.lt_succ_diag_r _)) as GT. unfold byte in *. rewrite GT. clear GT.
+  rewrite <- Tb in ND, NC, NP. apply no_dir_app in ND as [_ ND]. apply no_cr_app in NC as [_ NC].
+  apply psl_suffix in NP.
+  destruct r as [|c r0].
+  { inversion LX; subst. reflexivity. }
+  destruct (token kw2008 last (c :: r0)) as [[[k t] r'] e] eqn:TK.
+  pose proof (token_ok _ _ _ _ _ _ _ _ TK) as (Gb & Gne & Gl & Gk). unfold byte in *.
+  destruct (combine_diag tr false e) as [d|] eqn:CD; [|discriminate LX].
+  destruct (lex kw2008 f0 (Some k) r') as [ts'| |] eqn:LX'; try discriminate LX.
+  inversion LX; subst ts; clear LX.
+  apply clean_cons in CL as [-> CL'].
+  assert (e = None) by (destruct e; [discriminate CD|reflexivity]). subst e. clear CD.
+  pose proof NC as NCt. rewrite <- Gb in NCt. apply no_cr_app in NCt as [NCt NC'].
+  pose proof ND as ND'. rewrite <- Gb in ND'. apply no_dir_app in ND' as [_ ND'].
+  pose proof NP as NPt. rewrite <- Gb in NPt. pose proof (psl_suffix _ _ NPt) as NP'. apply psl_head in NPt as [NPa NPr].
+  assert (Lr' : (length r' < f'')%nat) by (unfold byte in *; lia).
+  assert (EOFK : is_eof k = false) by (destruct k; try reflexivity; contradiction Gk; reflexivity).
+  (* the common continuation: the head token is kept as it is *)
+  assert (KEEP : forall a, can_be_char (Some k) = can_char a ->
+            merge ((mkTok k t tr, None) :: ts') = (mkTok k t tr, None) :: merge ts' ->
+            match split_from LangLexer.keywords_2008 f'' a r' with Some ts0 => Some (t :: ts0) | None => None end
+            = Some (syn_lexemes_of (merge ((mkTok k t tr, None) :: ts')))).
+  { intros a INV' MG. rewrite MG in NB |- *. apply keep_tail in NB.
+    rewrite (lexemes_cons _ _ _ _ _ EOFK), (norm_eol_id _ NCt).
+    rewrite (IH f0 (Some k) a r' ts' ltac:(lia) LX' CL' NB ND' NC' NP' INV' f'' Lr'). reflexivity. }
+  destruct (letter c) eqn:LC.
+  - (* identifier, reserved word, or bit string literal without length *)
+    rewrite (token_letter _ _ _ _ LC) in TK. destruct (span ident_char (c :: r0)) as [ti ri] eqn:SP.
+    cbn [fst snd] in TK. inversion TK; subst k t r'; clear TK.
+    unfold lexeme_step. rewrite LC.
+    destruct (base_spec_len (c :: r0)) as [nb|] eqn:BS.
+    + apply ident_of_bs_len in BS as (t2 & r2 & E & Ln & IB & SP2). rewrite SP in SP2. inversion SP2; subst ti ri; clear SP2.
+      rewrite (bs_ident_kind _ IB) in *.
+      destruct (lex_string _ _ _ _ LX' CL') as (f1 & body & rq & ts2 & -> & QR & -> & LX2 & Lq).
+      apply clean_cons in CL' as [_ CL2].
+      rewrite E. rewrite <- Ln. rewrite skipn_S_app, firstn_S_app, QR.
+      pose proof (quoted_rest_app 34 _ r2 (le_n _) _ _ QR) as QA.
+      assert (MG : merge ((mkTok KIdentifier t2 tr, None) :: (mkTok KStringLiteral (34 :: body) [], None) :: ts2)
+                   = (mkTok KBitStringLiteral (t2 ++ 34 :: body) tr, None) :: merge ts2).
+      { rewrite merge_cons. cbn [t_kind t_text t_trivia is_ident is_str no_trivia andb]. rewrite IB. reflexivity. }
+      rewrite MG in NB |- *. apply keep_tail in NB.
+      rewrite lexemes_cons by reflexivity.
+      rewrite <- QA in NC', ND', NP'. change (34 :: body ++ rq) with ((34 :: body) ++ rq) in NC', ND', NP'.
+      apply no_cr_app in NC' as [NCb NCq]. apply no_dir_app in ND' as [_ NDq]. apply psl_suffix in NP'.
+      assert (NCm : no_cr (t2 ++ 34 :: body) = true).
+      { unfold no_cr in *. rewrite forallb_app, NCt, NCb. reflexivity. }
+      rewrite (norm_eol_id _ NCm).
+      assert (Lrq : (length rq < f'')%nat).
+      { apply (f_equal (@length _)) in E. rewrite app_length in E. cbn [length] in *. unfold byte in *. lia. }
+      rewrite (IH f1 (Some KStringLiteral) AfterOther rq ts2 ltac:(lia) LX2 CL2 NB NDq NCq NP' eq_refl f'' Lrq).
+      rewrite <- app_assoc. reflexivity.
+    + rewrite SP. apply KEEP; [apply ident_after_agree; assumption|].
+      rewrite merge_cons. cbn [t_kind t_text t_trivia].
+      destruct (is_ident (ident_kind kw2008 ti) && is_base_specifier ti) eqn:C1; [|destruct (is_abs (ident_kind kw2008 ti)) eqn:C2; [|reflexivity]].
+      * apply andb_true_iff in C1 as [_ IB].
+        destruct ts' as [|[s_ ds] rest']; [reflexivity|].
+        destruct (is_str (t_kind s_) && no_trivia s_) eqn:C2; [exfalso|reflexivity].
+        apply andb_true_iff in C2 as [C2a C2b]. apply no_trivia_nil in C2b.
+        destruct (lex_first _ _ _ _ _ _ _ LX' C2b) as [[_ KE]|(c3 & r3 & k3 & t3 & r3' & e3 & f3 & -> & _ & TK3 & -> & _)].
+        { rewrite KE in C2a. discriminate C2a. }
+        cbn [t_kind] in C2a. pose proof (token_kind_string _ _ _ _ _ _ _ _ TK3 C2a) as ->.
+        apply span_app in SP. rewrite <- SP in BS. rewrite (bs_len_of_ident _ _ IB) in BS. discriminate BS.
+      * exfalso. unfold ident_kind in C2. destruct (existsb _ _) in C2; discriminate C2.
+  - destruct (digit c) eqn:DC.
+    + (* abstract literal, or bit string literal with a length *)
+      unfold token in TK. rewrite alpha_eq, LC, digit_eq, DC in TK.
+      destruct (SynLexer.abstract_literal (c :: r0)) as [[ta ra] ea] eqn:AL.
+      destruct ea; [inversion TK|]. inversion TK; subst k ta ra; clear TK.
+      pose proof (abstract_literal_eq _ _ _ AL) as AL'.
+      unfold lexeme_step. rewrite LC, DC. unfold number. rewrite AL'.
+      assert (HD : exists t0, t = c :: t0).
+      { destruct t as [|x t0]; [contradiction Gne; reflexivity|]. cbn [app] in Gb. inversion Gb. eauto. }
+      destruct HD as [t0 HD].
+      (* when vhdl_syntax merges: the shape of the following two tokens *)
+      assert (FIRE : forall i_ di s_ ds rest', ts' = (i_, di) :: (s_, ds) :: rest' ->
+                is_ident (t_kind i_) && no_trivia i_ && is_base_specifier (t_text i_) && is_str (t_kind s_) && no_trivia s_ = true ->
+                exists r3, r' = t_text i_ ++ 34 :: r3 /\ is_base_specifier (t_text i_) = true).
+      { intros i_ di s_ ds rest' -> C.
+        apply andb_true_iff in C as [C C5]. apply andb_true_iff in C as [C C4]. apply andb_true_iff in C as [C C3].
+        apply andb_true_iff in C as [C1 C2]. apply no_trivia_nil in C2, C5.
+        destruct (lex_first _ _ _ _ _ _ _ LX' C2) as [[_ KE]|(c2 & r2 & k2 & t2 & r2' & e2 & f2 & -> & -> & TK2 & -> & LX2)].
+        { rewrite KE in C1. discriminate C1. }
+        cbn [t_kind t_text] in *.
+        pose proof (token_ok _ _ _ _ _ _ _ _ TK2) as (Gb2 & Gne2 & _ & _).
+        destruct t2 as [|x2 t2']; [contradiction Gne2; reflexivity|]. cbn [app] in Gb2. injection Gb2 as -> Gb2.
+        pose proof (is_bs_head _ _ C3) as L2. rewrite (token_letter _ _ _ _ L2) in TK2.
+        destruct (lex_first _ _ _ _ _ _ _ LX2 C5) as [[_ KE]|(c3 & r3 & k3 & t3 & r3' & e3 & f3 & -> & _ & TK3 & -> & _)].
+        { rewrite KE in C4. discriminate C4. }
+        cbn [t_kind] in C4. pose proof (token_kind_string _ _ _ _ _ _ _ _ TK3 C4) as ->.
+        exists r3. split; [|exact C3]. rewrite <- Gb2. reflexivity. }
+      destruct (forallb int_char t) eqn:FI.
+      * destruct (base_spec_len r') as [nb|] eqn:BS.
+        -- apply ident_of_bs_len in BS as (t2 & r2 & E & Ln & IB & SP2).
+           destruct t2 as [|x2 t2']; [vm_compute in IB; discriminate IB|].
+           pose proof (is_bs_head _ _ IB) as L2. cbn [app] in E. subst r'.
+           destruct f0 as [|f1]; [discriminate LX'|]. rewrite lex_S in LX'.
+           rewrite (trivia_letter _ _ _ L2), (token_letter _ _ _ _ L2) in LX'. cbn [app] in SP2. rewrite SP2 in LX'. cbn [fst snd] in LX'.
+           cbn [combine_diag] in LX'.
+           destruct (lex kw2008 f1 (Some (ident_kind kw2008 (x2 :: t2'))) (34 :: r2)) as [ts1| |] eqn:LX1; try discriminate LX'.
+           inversion LX'; subst ts'; clear LX'. apply clean_cons in CL' as [_ CL1].
+           rewrite (bs_ident_kind _ IB) in *.
+           destruct (lex_string _ _ _ _ LX1 CL1) as (f2 & body & rq & ts2 & -> & QR & -> & LX2 & Lq).
+           apply clean_cons in CL1 as [_ CL2].
+           change (x2 :: t2' ++ 34 :: r2) with ((x2 :: t2') ++ 34 :: r2). rewrite <- Ln.
+           rewrite skipn_S_app, firstn_S_app, QR.
+           pose proof (quoted_rest_app 34 _ r2 (le_n _) _ _ QR) as QA.
+           assert (MG : merge ((mkTok KAbstractLiteral t tr, None) :: (mkTok KIdentifier (x2 :: t2') [], None)
+                               :: (mkTok KStringLiteral (34 :: body) [], None) :: ts2)
+                        = (mkTok KBitStringLiteral (t ++ (x2 :: t2') ++ 34 :: body) tr, None) :: merge ts2).
+           { rewrite merge_cons. cbn [t_kind t_text t_trivia is_ident is_abs is_str no_trivia andb]. rewrite IB. reflexivity. }
+           rewrite MG in NB |- *. apply keep_tail in NB.
+           rewrite lexemes_cons by reflexivity.
+           change (x2 :: t2' ++ 34 :: r2) with ((x2 :: t2') ++ 34 :: r2) in NC', ND', NP'.
+           apply no_cr_app in NC' as [NCi NC']. apply no_dir_app in ND' as [_ ND']. apply psl_suffix in NP'.
+           rewrite <- QA in NC', ND', NP'. change (34 :: body ++ rq) with ((34 :: body) ++ rq) in NC', ND', NP'.
+           apply no_cr_app in NC' as [NCb NCq]. apply no_dir_app in ND' as [_ NDq]. apply psl_suffix in NP'.
+           assert (NCm : no_cr (t ++ (x2 :: t2') ++ 34 :: body) = true).
+           { unfold no_cr in *. rewrite !forallb_app, NCt, NCi, NCb. reflexivity. }
+           rewrite (norm_eol_id _ NCm).
+           assert (Lrq : (length rq < f'')%nat).
+           { cbn [length] in *. rewrite app_length in Lr'. cbn [length] in Lr'. unfold byte in *. lia. }
+           rewrite (IH f2 (Some KStringLiteral) AfterOther rq ts2 ltac:(lia) LX2 CL2 NB NDq NCq NP' eq_refl f'' Lrq).
+           rewrite <- !app_assoc. reflexivity.
+        -- apply KEEP; [reflexivity|]. rewrite merge_cons. cbn [t_kind t_text t_trivia is_ident is_abs andb].
+           destruct ts' as [|[i_ di] [|[s_ ds] rest']]; try reflexivity.
+           destruct (is_ident (t_kind i_) && no_trivia i_ && is_base_specifier (t_text i_) && is_str (t_kind s_) && no_trivia s_) eqn:C;
+             [exfalso|reflexivity].
+           destruct (FIRE _ _ _ _ _ eq_refl C) as (r3 & E & IB). rewrite E, (bs_len_of_ident _ _ IB) in BS. discriminate BS.
+      * apply KEEP; [reflexivity|]. rewrite merge_cons. cbn [t_kind t_text t_trivia is_ident is_abs andb].
+        destruct ts' as [|[i_ di] [|[s_ ds] rest']]; try reflexivity.
+        destruct (is_ident (t_kind i_) && no_trivia i_ && is_base_specifier (t_text i_) && is_str (t_kind s_) && no_trivia s_) eqn:C;
+          [exfalso|reflexivity].
+        (* the merged literal is not an integer: excluded by the hypothesis on bad_bs *)
+        rewrite merge_cons in NB. cbn [t_kind t_text t_trivia is_ident is_abs andb] in NB. rewrite C in NB.
+        cbn [existsb] in NB. apply orb_false_iff in NB as [NB _].
+        unfold bad_bs in NB. cbn [fst t_kind t_text] in NB.
+        destruct (abstract_literal_shape _ _ _ AL') as [[E _]|(x & more & E & IX & B1 & B2)].
+        { rewrite E in FI. destruct (span int_char (c :: r0)) as [i0 r0'] eqn:S0. cbn [fst] in FI.
+          rewrite (span_all _ _ _ _ S0) in FI. discriminate FI. }
+        destruct (span int_char (c :: r0)) as [i0 r0'] eqn:S0. cbn [fst] in E.
+        pose proof (span_all _ _ _ _ S0) as AI.
+        unfold nonint_prefix in NB. rewrite HD in NB. cbn [app] in NB. rewrite DC in NB. cbn [andb] in NB.
+        change (c :: t0 ++ t_text i_ ++ t_text s_) with ((c :: t0) ++ t_text i_ ++ t_text s_) in NB.
+        rewrite <- HD, E in NB. rewrite <- app_assoc in NB. cbn [app] in NB.
+        rewrite (span_app_stop int_char i0 (x :: more ++ t_text i_ ++ t_text s_) AI IX) in NB. cbn [snd] in NB.
+        rewrite (base_spec_len_none_head _ _ B1 B2) in NB. discriminate NB.
+    + (* delimiters, character and string literals, extended identifiers *)
+      destruct (token_other _ prev _ _ _ _ _ LC DC (no_dir_head _ _ ND) TK INV) as (a & STEP & INV' & IA & II).
+      rewrite STEP. apply KEEP; [exact INV'|].
+      rewrite merge_cons. cbn [t_kind t_text t_trivia]. rewrite IA.
+      destruct (is_ident k) eqn:IK; [rewrite (II eq_refl)|]; reflexivity.
+Qed.
+
+(* ------------------------------------------------------------------------------------------ *)
+(* the theorem                                                                                 *)
+(* ------------------------------------------------------------------------------------------ *)
+Theorem syn_is_spec : forall s,
+  clean_syn s = true -> no_directive s = true -> no_cr s = true ->
+  has_nonint_bitstring s = false -> has_psl_word s = false ->
+  split_spec LangLexer.keywords_2008 s = lexemes_syn s.
+Proof.
+  intros s CL ND NC NB NP.
+  unfold lexemes_syn, clean_syn, syn_result, has_nonint_bitstring, token_stream, synlex in *. unfold byte in *.
+  destruct (lex kw2008 (S (length s)) None s) as [ts| |] eqn:LX; try discriminate CL.
+  cbn [option_map snd]. unfold split_spec.
+  apply (main_step (S (length s)) (S (length s)) None AfterOther s ts (le_n _) LX); try assumption.
+  - eapply merge_clean; [apply le_n|exact CL].
+  - reflexivity.
+  - apply Nat.lt_succ_diag_r.
+Qed.
+
+(* the hypotheses are satisfiable by an input that exercises every arm *)
+Definition ex_syn : list N :=
+  [120; 34; 65; 34; 32; 49; 50; 115; 98; 34; 48; 34; 39; 97; 39; 40; 39; 98; 39; 41; 39; 99; 32; 45; 45; 120; 10;
+   49; 54; 35; 70; 35; 101; 49; 63; 47; 61; 92; 97; 92; 34; 113; 34; 34; 34; 58; 61; 49; 46; 53].
+Lemma ex_syn_ok : clean_syn ex_syn = true /\ no_directive ex_syn = true /\ no_cr ex_syn = true
+  /\ has_nonint_bitstring ex_syn = false /\ has_psl_word ex_syn = false
+  /\ length (match lexemes_syn ex_syn with Some l => l | None => [] end) = 14%nat.
+Proof. vm_compute. repeat split. Qed.
+
